@@ -114,7 +114,7 @@ CHECKS.update({
             "from_polyco (incl. gaps, ncoeff not a multiple of 3, D exponents), symbolic time: refusals exactly outside the spans, the entry "
             "used contains the time, phase = tempo formula (exact decimals of the text) within 1e-8 cycles over the whole span (difference "
             "polynomial expanded exactly, one univariate inequality per side), derivatives, recentred polynomial. Parsing: the real "
-            "from_polyco runs on a token stream with concrete layout (1-2 entries, NCOEFF 2..5) and symbolic TMID, RPHASE (integer and six "
+            "from_polyco runs on a token stream with concrete layout (1-2 entries, NCOEFF 2..4) and symbolic TMID, RPHASE (integer and six "
             "decimals), F0 and coefficients; __call__/f0 of the parsed table at a symbolic time equal the tempo formula on those symbolic "
             "numbers (difference in polynomial normal form, within 1e-8 cycles / 1e-12 of the derivative scale), refusals exactly outside spans.",
             "Texts with symbolic numbers are limited to the listed layouts (no blank lines, NCOEFF >= 2, at most two entries); time_at, "
